@@ -219,6 +219,8 @@ pub struct Runner {
     pub script: Script,
     /// keep the File objects of delivered requests (C12) instead of dropping them
     pub keep_files: bool,
+    /// do not pop delivered requests after try_read (the application collects them later with `pop_all`)
+    pub defer_pop: bool,
 }
 
 /// Generous logical step budget for one try_read: the state loop handles at least one
@@ -232,7 +234,7 @@ impl Runner {
         if let Some(l) = limit {
             conn.set_payload_max_size(l);
         }
-        Runner { conn, script, keep_files: false }
+        Runner { conn, script, keep_files: false, defer_pop: false }
     }
 
     /// One try_read with whatever the script holds next.
@@ -252,6 +254,9 @@ impl Runner {
         };
         let mut delivered = Vec::new();
         let mut files = Vec::new();
+        if !matches!(res, RR::Panic(_)) && self.defer_pop {
+            return StepOut { res, delivered, files, recv_calls, ticks };
+        }
         if !matches!(res, RR::Panic(_)) {
             let pr = self.conn.verif_probe();
             PROBE_COV.with(|c| c.borrow_mut()[(pr.state as usize).min(3)][cursor_class(pr.read_cursor)] += 1);
@@ -272,6 +277,17 @@ impl Runner {
             }
         }
         StepOut { res, delivered, files, recv_calls, ticks }
+    }
+
+    /// Pops everything the connection has delivered so far (views and, with keep_files, the Files).
+    pub fn pop_all(&mut self) -> (Vec<ReqView>, Vec<Vec<std::fs::File>>) {
+        let mut views = Vec::new();
+        let mut files = Vec::new();
+        while let Some(mut r) = self.conn.pop_parsed_request() {
+            views.push(view(&r));
+            files.push(std::mem::take(&mut r.files));
+        }
+        (views, files)
     }
 
     /// An empty read (EAGAIN when `eintr` is false, else EINTR): must return that stream error and
